@@ -143,6 +143,8 @@ func cmdCheck(args []string) int {
 	assumptions := map[string]bool{}
 	notes := map[string]bool{}
 	var discharged []string
+	retTotal, retDead := map[string]int{}, map[string]int{}
+	var deadReturns []string
 	for _, r := range results {
 		funcs = append(funcs, r.Display)
 		for a := range r.G.assumes {
@@ -160,6 +162,14 @@ func cmdCheck(args []string) int {
 			evs = append(evs, ev)
 			if o.ExpectSat {
 				nCover++
+				if o.Kind == "cover-return" {
+					retTotal[o.Fn]++
+					if o.Result == "unsat" {
+						retDead[o.Fn]++
+						deadReturns = append(deadReturns, o.Name+" at "+o.Pos.String())
+					}
+					continue
+				}
 				if o.Result == "unsat" {
 					broken = append(broken, "vacuous: "+o.Name+" (the assumptions of the function are contradictory)")
 				}
@@ -208,6 +218,11 @@ func cmdCheck(args []string) int {
 	}
 	if nObl == 0 {
 		broken = append(broken, "no obligations were generated")
+	}
+	for fn, n := range retTotal {
+		if n > 0 && retDead[fn] == n {
+			broken = append(broken, "vacuous: no return of "+fn+" is reachable under its contract and the assumed callee contracts")
+		}
 	}
 
 	exit := 0
@@ -385,6 +400,7 @@ func cmdCheck(args []string) int {
 				"contracts marked trusted / pure / axiom / rely in the contract files (listed under assumptions)"},
 			"functions_under_contract": funcs,
 			"covers_checked":           nCover,
+			"unreachable_returns":      deadReturns,
 			"backends":                 backends,
 			"solver_ms_total":          solverMs,
 			"load_s":                   l.loadS,
